@@ -96,6 +96,12 @@ def handleDet (st : St) (fid det impl : String) : Verdict :=
       if impl == "PANIC" then ("VIOL", "panic")
       else
         match nodeSpecOf det, parseLocs impl with
+        | none, some locs =>
+          if det == "divide_before_multiply_vulnerability" then
+            (match dbmOracleOn f.tree locs with | none => ("ok", "") | some w => ("VIOL", w))
+          else if det == "unprotected_selfdestruct_vulnerability" then
+            (match selfdestructOracleOn f.tree locs with | none => ("ok", "") | some w => ("VIOL", w))
+          else ("na", "")
         | some s, some locs =>
           if det == "increment_decrement_optimization" && !incDecLocsDistinct f.tree then ("na", "hypothesis IncDecLocsDistinct fails")
           else
